@@ -660,14 +660,22 @@ func c15GenCfg(r *lab.Rand, u *c15Universe, idx int) *c15Cfg {
 }
 
 func c15ModelJob(c *lab.Ctx) {
-	c.Rule("generated: hosts 0..12 with partial/overlapping metadata over keys {b,d,f} x values {x,y,z} (key presence 25..100%, " +
+	c.Rule("generated: hosts 0..12 with partial/overlapping metadata over 3 keys (spellings rotate with the batch: {b,d,f}, {Zone,app,env}, {B,d,F}, {k-1,k.2,k_3}) x values {x,y,z} (key presence 25..100%, " +
 		"hosts without metadata, value collisions across keys), selectors = every non-empty subset of the 7 non-empty key subsets " +
 		"(systematic, with reordered/repeated keys and selectors) x every fallback policy (systematic) x default subsets (empty, " +
 		"a host's metadata, random incl. unknown values/keys); per configuration ALL criteria: every key in {absent,x,y,z,unknown} " +
 		"(125), half of them again with an unknown key sorting before/between/after the known keys, nil and typed-nil. Both builders " +
 		"judged against the set-algebra model and against each other. distinct = (policy, set of selector key sets, criteria key set, " +
 		"unknown value?, outcome subset/fallback-nonempty/fallback-empty/nil, min(|S|,3))")
-	u := c15NewUniverse([]string{"b", "d", "f"}, []string{"x", "y", "z"}, "w", []string{"a", "c", "g"}, false)
+	// the key spellings rotate with the batch: lower case, mixed case (byte order differs from dictionary order), punctuation
+	alpha := [][2][]string{
+		{{"b", "d", "f"}, {"a", "c", "g"}},
+		{{"Zone", "app", "env"}, {"Alpha", "bb", "zz"}},
+		{{"B", "d", "F"}, {"A", "c", "g"}},
+		{{"k-1", "k.2", "k_3"}, {"k", "k/", "kz"}},
+	}[c.Batch%4]
+	c.Count(fmt.Sprintf("key-alphabet-%v", alpha[0]), 1)
+	u := c15NewUniverse(alpha[0], []string{"x", "y", "z"}, "w", alpha[1], false)
 	e := c15NewEngine(c, u)
 	total := c.Pick(20320, 203200) // 127 selector sets x 3 policies = 381 systematic combinations, each ~53 / ~533 times
 	nb := c.NBatch
@@ -695,9 +703,11 @@ func c15ModelJob(c *lab.Ctx) {
 
 // c15-wide: selectors of up to 6 keys (the builders' key-combination code is exercised beyond 3 keys)
 func c15WideJob(c *lab.Ctx) {
-	c.Rule("generated: 6 keys {b,d,f,h,k,m} x values {x,y}: hosts 0..12 with partial metadata, 1..3 selectors of 1..6 keys (sizes >= 4 over-represented), every fallback policy, default subsets; " +
+	c.Rule("generated: 6 keys {b,d,f,h,k,m} (odd batches: {B,d,F,h,K,m}) x values {x,y}: hosts 0..12 with partial metadata, 1..3 selectors of 1..6 keys (sizes >= 4 over-represented), every fallback policy, default subsets; " +
 		"per configuration ALL criteria (every key in {absent,x,y,unknown} = 4096, a third again with an unknown key). Both builders judged against the model and against each other. distinct as c15-model")
-	u := c15NewUniverse([]string{"b", "d", "f", "h", "k", "m"}, []string{"x", "y"}, "w", []string{"a", "g"}, false)
+	keys6 := [][]string{{"b", "d", "f", "h", "k", "m"}, {"B", "d", "F", "h", "K", "m"}}[c.Batch%2]
+	c.Count(fmt.Sprintf("key-alphabet-%v", keys6), 1)
+	u := c15NewUniverse(keys6, []string{"x", "y"}, "w", []string{"a", "g"}, false)
 	e := c15NewEngine(c, u)
 	total := c.Pick(1200, 12000)
 	nb := c.NBatch
